@@ -140,9 +140,89 @@ func entryValue(r *vh.Rng) (interface{}, string) {
 	return wireScalar(r), "scalar"
 }
 
+// validEdit rewrites the delta into another well-formed delta for the same previous value that diff.Diff would
+// not produce (a different server could): a raw scalar wrapped, a run split or written in the long form, a
+// redundant identity reordering, an entry replaced by a wrapped value, an empty nested delta.
+func validEdit(r *vh.Rng, prev interface{}, dm map[string]interface{}) (string, bool) {
+	keys := sortedKeys(dm)
+	switch r.Intn(5) {
+	case 0: // wrap a raw scalar entry
+		for _, k := range keys {
+			switch dm[k].(type) {
+			case bool, float64, string:
+				if k != "$" {
+					dm[k] = []interface{}{dm[k]}
+					return "valid:scalar-wrapped", true
+				}
+			}
+		}
+	case 1: // runs written differently
+		if c, ok := dm["$"].([]interface{}); ok {
+			var out []interface{}
+			changed := false
+			for _, e := range c {
+				if run, isRun := e.([]interface{}); isRun && len(run) == 2 {
+					s, n := run[0].(float64), run[1].(float64)
+					for i := 0.0; i < n; i++ {
+						out = append(out, s+i)
+					}
+					changed = true
+				} else if x, isNum := e.(float64); isNum && x >= 0 {
+					out = append(out, []interface{}{x, float64(1)})
+					changed = true
+				} else {
+					out = append(out, e)
+				}
+			}
+			if changed {
+				dm["$"] = out
+				return "valid:runs-rewritten", true
+			}
+		}
+	case 2: // identity reordering spelled out
+		if p, ok := prev.([]interface{}); ok {
+			if _, has := dm["$"]; !has && len(p) > 0 {
+				dm["$"] = []interface{}{[]interface{}{float64(0), float64(len(p))}}
+				return "valid:identity-reorder", true
+			}
+		}
+	case 3: // an entry of an object replaced by a wrapped value / an unchanged field gets an empty delta
+		if p, ok := prev.(map[string]interface{}); ok {
+			for _, k := range sortedKeys(p) {
+				if _, inD := dm[k]; inD {
+					continue
+				}
+				switch p[k].(type) {
+				case map[string]interface{}, []interface{}:
+					dm[k] = map[string]interface{}{}
+					return "valid:empty-nested-delta", true
+				default:
+					dm[k] = []interface{}{wireValue(r, 1)}
+					return "valid:field-replaced", true
+				}
+			}
+		}
+	default: // a field removed that the previous value has
+		if p, ok := prev.(map[string]interface{}); ok {
+			for _, k := range sortedKeys(p) {
+				if _, inD := dm[k]; !inD {
+					dm[k] = []interface{}{}
+					return "valid:field-removed", true
+				}
+			}
+		}
+	}
+	return "", false
+}
+
 // fuzzEdit applies one edit somewhere in (prev, delta) and names it.
 func fuzzEdit(r *vh.Rng, prev, delta interface{}) (interface{}, interface{}, string) {
 	dm, isObj := delta.(map[string]interface{})
+	if isObj && r.Chance(30) {
+		if name, ok := validEdit(r, prev, dm); ok {
+			return prev, dm, name
+		}
+	}
 	if !isObj || r.Chance(12) {
 		// top-level replacement
 		switch r.Intn(4) {
@@ -157,7 +237,7 @@ func fuzzEdit(r *vh.Rng, prev, delta interface{}) (interface{}, interface{}, str
 			}
 			return map[string]interface{}{"a": prev}, delta, "prev:->object"
 		}
-		return prev, delta, "none"
+		return wireValue(r, 2), delta, "prev:regenerated"
 	}
 	// descend with some probability
 	keys := sortedKeys(dm)
